@@ -26,15 +26,20 @@ def _const_branch(node):
 
 def run(ctx):
     res = PropResult('C18')
-    K.k1_block(res, ctx, 'contracts.c18', ['Excel.parse/data', 'Excel.parse/sizes'], 'C18.')
+    K.k1_block(res, ctx, 'contracts.c18', ['Excel.parse/data', 'Excel.parse/sizes', 'Excel.parse/titles'], 'C18.')
     K.k1_block(res, ctx, 'contracts.c02', ['Excel._fill_cell'], 'C18.')
     K.canary_contract(res, 'contracts.c18', 'Excel.parse/data', 'one_entry_per_sheet', 'is_list(result) and len(result) == 1')
     K.shape(res, 'C18.CellTranslator.constant_is_repr', 'repo:translators/cell_translator.py:CellTranslator._set_cell_to_context',
             _const_branch, 'eval(repr(v)) == v for int / float / bool / str / datetime (A)')
+    K.shape(res, 'C18.Excel.parse.returns_what_was_read', 'repo:excel.py:Excel.parse',
+            lambda node: (all(t in ast.unparse(node) for t in ("'data': worksheets_data", "'titles': worksheets_titles",
+                                                               "'suspicious_cells': suspicious_cells", "'sheets_size': sheets_size")),
+                          'the constructor receives exactly the four accumulators the loop contracts speak about'),
+            'dropped by the #head2 extraction: wb.close() and this constructor call')
     K.monitor_if_present(res, ctx, 'mon_c18')
     res.trusted_base += ['K5 openpyxl read-only iter_rows() after reset_dimensions(): i-th row is sheet row i+1, j-th element '
                          'column j+1, missing cells padded (conformance: bounded monitor)', 'eval(repr(v)) == v for the stored types']
-    res.assumptions += ['ArrayFormula cell values are outside the K1 contract of Excel.parse (bounded)', 'titles come from wb.sheetnames (K5)']
+    res.assumptions += ['ArrayFormula cell values are outside the K1 contract of Excel.parse (bounded)']
     return res
 
 
